@@ -87,6 +87,16 @@ PROPS = {
         "trusted_base": ["hand-written model Car.lean / Varint.lean / Sha256.lean; tie = byte-level comparison of encode output and of the decode outcome at every truncation and corruption position"],
         "assumptions": ["mutated archives are judged by self-consistency (delivered blocks re-hash to their own CID; off-boundary truncation errors), not by equality with the original: a flipped codec byte gives a different but self-consistent block"],
     },
+    "C14": {
+        "manifest": {"text": "Theorems: sig_frame (Code/Size/Raw recover what NewSignature framed, all codes and lengths below 2^63), sigRaw_suffix (Size/Raw are total on arbitrary bytes), did_decode_bytes, did_parse_string_nonkey (every non-key `did:` string, empty and non-ASCII ids included, parses, prints back to itself and re-parses to the same value), edSigner_decode_encode (key byte layout round trip), C14_own_code / C14_accept_only / C14_sign_verify (a verifier consults its primitive only under its own algorithm code; with ideal signatures it accepts only what the matching key produced for exactly that message; a produced signature verifies under its code and under no other), varint round trips. Correspondence: did.Parse/Decode/String/Bytes, signature Code/Size/Raw, Ed25519 signer/verifier Decode compared with the model on every byte string over an 11-symbol alphabet up to length 4 (5 thorough), every `did:` string over a 9-symbol alphabet up to length 4 (6), realistic and corrupted values; real Ed25519 and RSA keys (deterministic pool, all ordered pairs): Format/Parse/Encode/Decode equality, verifier-from-DID agreement, Wrap changes only the DID, cross-key / other-message / other-algorithm-code / damaged-signature rejection, checked with the standard library's ed25519 as well.", "design_ref": "5.14", "note": "trusted: Lean kernel; hand-written model Did.lean/Base58.lean/Varint.lean; Ed25519/RSA/PKCS#1 are outside the model (SigScheme parameter, Ideal as a hypothesis with a satisfying toy instance) and only sampled with real keys; base58btc round trip (did:key strings) is tied by exhaustive/realistic correspondence, its Lean proof is pending"},
+        "obligations": ob("UcantoModel.Props.C14", "DidM.sig_frame", "DidM.sigRaw_suffix", "DidM.sig_pinned_panics", "DidM.did_decode_bytes", "DidM.did_parse_string_nonkey",
+                          "DidM.edSigner_decode_encode", "DidM.C14_own_code", "DidM.C14_accept_only", "DidM.C14_sign_verify")
+                       + ob("UcantoModel.Model.SigScheme", "SigScheme.toy_ideal")
+                       + ob("UcantoModel.Lemmas.VarintLemmas", "Varint.readMf_encode"),
+        "mismatch_is_violation": True, "exhaustive": True,
+        "rule": "exhaustive: all byte strings over {00,01,12,20,7f,80,9d,1a,a1,ed,ff} up to length 4 (5 thorough) through did.Decode and signature Code/Size/Raw; all strings `did:`+w, w over {k,e,y,:,z,1,A,2,w} up to length 4 (6); did:key strings over a base58 subset; realistic DIDs of both key types, web, mailto, unicode, malformed; signature framings; Ed25519 key layouts and corruptions; real-key property checks over all ordered key pairs. non-trivial: non-empty input / distinct keys. distinct: hash of (op,args)",
+        "trusted_base": ["hand-written model Did.lean (did.go, signature.go framing, ed25519 key layout), Base58.lean"],
+    },
     "C16": {
         "manifest": {"text": "Lean theorems over all byte strings: resolveAbility/resolveResource/defaultDerives of the model equal the property's three grant relations (resolveAbility_spec, resolveResource_spec, defaultDerives_spec, plus no_partial_segment / only_three_forms); the model is tied to the Go functions by exhaustive enumeration of all string pairs over {a,b,A,/,*,:} up to total length 7 (quick) / 8 (thorough) plus random realistic strings, so any divergence of the code from the proved specification inside that space is a concrete failing pair.",
                      "design_ref": "5.16",
